@@ -372,6 +372,11 @@ func RunC09(tier string, args []string) int {
 				panic("setup: listed probe not revoked: " + got.String() + got.Err)
 			}
 			idA = w.Repo().VerifEntries()[0].ID
+			// the unlisted certificate has been presented before, while everything was healthy (whatever is remembered of
+			// that answer does not survive the failure of the store)
+			if got := w.Lookup(unlisted, c.chain(unlisted)); got.String() != "OK" {
+				panic("setup: unlisted probe: " + got.String() + got.Err)
+			}
 			if extras {
 				// further healthy CRLs (which do not list the probes) in the same repository, at least one whose identifier
 				// sorts before and one whose identifier sorts after the faulty one: whatever order the lookup visits the
